@@ -1006,3 +1006,31 @@ Example no_leak_example :
                      RecvOH; DropProxy 1; DropProxy 2; HandleRefLost; HandleRefLost; RecvHO; RecvHO; RecvOH; RecvOH] in
   quiescent s /\ no_proxy s /\ leaked s = [] /\ o_tab (ow s) = [] /\ o_next (ow s) = 3.
 Proof. vm_compute. repeat split; repeat constructor. Qed.
+
+(* ------------------------------------------------------------------ *)
+(* C08, several connections: a bare clid only ever travels on the connection whose table gives it its meaning *)
+
+Lemma yourref_homekey_spec : yourref_homekey = HomeSameConnection.
+Proof. reflexivity. Qed.
+
+Theorem bare_clid_stays_on_its_connection pc oc c u c' :
+  slice_proxy pc oc c u = WYourRef c' -> conn_id pc = conn_id oc /\ c' = c.
+Proof.
+  unfold slice_proxy. rewrite yourref_homekey_spec. cbn [goes_home].
+  destruct (conn_id pc =? conn_id oc) eqn:E; [|discriminate].
+  intros H. inversion H. apply Z.eqb_eq in E. auto.
+Qed.
+
+Theorem other_connection_is_a_gift pc oc c u :
+  conn_id pc <> conn_id oc -> slice_proxy pc oc c u = WTheirRef u.
+Proof.
+  intros H. unfold slice_proxy. rewrite yourref_homekey_spec. cbn [goes_home].
+  apply Z.eqb_neq in H. rewrite H. reflexivity.
+Qed.
+
+(* the statement discriminates: deciding by the peer Tub instead would put the stale clid of an EARLIER connection to the
+   same Tub on the new connection (reconnection: same peer, different Broker) *)
+Example same_peer_test_would_leak_stale_clids :
+  exists pc oc, conn_id pc <> conn_id oc /\ conn_peer pc = conn_peer oc /\ goes_home HomeSamePeerTub pc oc = true /\
+                goes_home HomeSameConnection pc oc = false.
+Proof. exists {| conn_id := 1; conn_peer := 7 |}, {| conn_id := 2; conn_peer := 7 |}. cbn. repeat split; discriminate. Qed.
